@@ -1,6 +1,8 @@
 import QV.Props.C07Basis
 import QV.Lemmas.TaylorRel
 import Mathlib.Data.Matrix.Mul
+import Mathlib.Tactic.NormNum
+import Mathlib.Tactic.FinCases
 
 /-!
 # C07 — "in every basis", for the propagated dynamics
@@ -140,5 +142,18 @@ theorem redfield_ops_in_new_basis (S1 SS K L Ld ρ : Mat α n)
       = apply (transformTwoPass S1 SS (loopTerm K (fun i j => K j i) L Ld)) (sandwich S1 SS ρ) := by
   rw [sandwich_transpose S1 SS K hT]
   exact ops_eq_tensor_in_new_basis S1 SS K (fun i j => K j i) L Ld ρ h1 h2 h3
+
+
+/-- non-vacuity of the orthogonality hypotheses with a genuine rotation: `SS = [[3/5, 4/5], [-4/5, 3/5]]`, `S1 = SSᵀ` -/
+def rotSS : Mat ℚ 2 := fun i j => if i = j then 3/5 else if i.val < j.val then 4/5 else -4/5
+def rotS1 : Mat ℚ 2 := fun i j => rotSS j i
+
+example : (∀ x y, ∑ c, rotS1 c x * rotS1 c y = if x = y then 1 else 0)
+    ∧ (∀ x y, ∑ d, rotSS x d * rotSS y d = if x = y then 1 else 0)
+    ∧ (∀ x y, ∑ a, rotSS x a * rotS1 a y = if x = y then 1 else 0)
+    ∧ (∀ x y, rotS1 x y = rotSS y x) := by
+  refine ⟨?_, ?_, ?_, fun _ _ => rfl⟩ <;>
+  · intro x y
+    fin_cases x <;> fin_cases y <;> simp [Fin.sum_univ_two, rotS1, rotSS] <;> norm_num
 
 end QV.Prop
